@@ -91,6 +91,12 @@ def handle (st : St) (op : String) (args : List String) (impl : Option String) :
     -- any interleaving of whole operations is a timed history of the sequential model
     -- (`window_ops_atomic`), in which no live sample is lost, duplicated or invented (`window_spec`)
     some (st, { model := "lost=0,dup=0,phantom=0" })
+  | "getn", [gs] =>
+    -- several metrics in one Stats: each export is that of its own samples
+    let one (vs : String) : String :=
+      let e := exportOf ((vs.splitOn ",").filterMap String.toInt?)
+      s!"{e.min},{e.max},{e.avg}"
+    some (st, { model := "|".intercalate ((gs.splitOn "|").map one) })
   | "get", [vs] =>
     if vs = "-" then some (st, { model := "none" })
     else
